@@ -15,6 +15,12 @@ Readings fixed here (the property text is ambiguous at these points):
    longest staff of the previous measure ended.
  * round trips: every Note of the exported part is found again with the same onset and duration
    in quarters, step/alter/octave and staff (voices, ties, rests and signatures are not demanded).
+   "Parts exportable by the two writers" = the decidable predicates `Exportable` of
+   lean/PartituraModel/Model/KernWrite.lean and Model/MeiWrite.lean (restated in plain Python below as
+   py_kern_exportable / py_mei_exportable); for them export_import is a Lean theorem about the writer models,
+   which are compared with the real writers' output cell by cell / element by element.
+ * "the loader picks the reader from the file extension" = lower-cased posixpath.splitext extension looked up
+   in the if / elif chain of load_score (Model/LoadDispatch.lean; the chain is read off the source on every run).
  * supported subset = what the property's quantifier lists.  Ties are joined note by note, also inside
    chords (the former open finding F-C19-kern-chord-ties is repaired by fixes/C19-27 and always generated).
 """
@@ -30,38 +36,59 @@ from core import Eval
 
 PROPERTY = "C19"
 DRIVER = "drv_c19"
-PROPS = ["PartituraModel.Props.C19", "PartituraModel.Props.C19Write", "PartituraModel.Props.C19Dispatch"]
+PROPS = ["PartituraModel.Props.C19", "PartituraModel.Props.C19Write", "PartituraModel.Props.C19MeiWrite",
+         "PartituraModel.Props.C19Dispatch"]
 TRUSTED = [
-    "lxml tokenisation of the MEI text into open/close events (the harness does nothing else to the document)",
-    "numpy loadtxt/genfromtxt splitting of kern rows into cells",
+    "lxml tokenisation of the MEI text into open/close events (the harness does nothing else to the document), also of the "
+    "text save_mei writes; numpy loadtxt/genfromtxt splitting of kern rows into cells, np.savetxt joining them",
     "binary64 arithmetic inside load_kern (reciprocal durations, dot_function): model exact, compared exactly",
     "that the importers implement the modelled semantics is established by the differential run only",
+    "the order in which Part.iter_all yields the objects of a time point / a measure (the writers' input is extracted "
+    "with the same calls; the container itself is C01's subject)",
+    "save_kern's preprocessing (add_measures, fill_rests) and fifths_mode_to_key_name (MEI @pname): their results are the writer models' input",
+    "str.lower of non-ASCII extensions in load_score (the model lower-cases ASCII); the readers are replaced by recorders "
+    "when the choice of reader is compared on generated paths (the real readers run in the file-based dispatch case)",
 ]
 PARTIAL = [
-    "the theorems are about the semantics (values, pitch letters, spine additivity, tie joining, grace notes, divisions, "
-    "inferred ppq); importer = semantics is compared on generated documents and the fixtures, not proved",
-    "export_import is checked on generated exportable parts only (no Lean model of the two writers)",
-    "kern: at most two simultaneous sub-spines per **kern spine, all spines in one *part or each its own part "
-    "(mixed *part groupings, *x exchanges and **dynam etc. spines are not generated); ties on chord notes only "
-    "when the open finding F-C19-kern-chord-ties is registered",
-    "MEI: repeats/endings, @tie attributes, nested tuplets, staffDef changes inside a section are outside the generated subset "
-    "(fixtures containing them are compared for notes, measures, signatures and ppq only)",
+    "importer = semantics (notes, measures, signatures, divisions of a loaded document) is compared on generated documents, "
+    "the writers' real output and the fixtures, not proved; proved are the semantics' own laws and, for both writers, "
+    "export_import against that semantics",
+    "export_import_kern / export_import_mei are about the writer models (equal to the real writers cell by cell / element by "
+    "element on every generated part) and the Exportable parts; parts outside Exportable are only compared (model = code), "
+    "nothing is demanded of them",
+    "writer models leave out: Tempo, slur and beam signifiers (kern); beams, clef changes, harmonies, fermatas, barline and "
+    "repeat attributes, fingerings, stem directions, notes without id, tuplets inside tuplets (MEI) - not generated",
+    "kern chords whose notes have different written lengths (semantics: each its own, the first moves the spine; load_kern: "
+    "all get the length of the last) are outside the common ground: not generated, excluded by Exportable",
+    "kern: *x exchanges, three-way `*v *v *v` joins and **dynam etc. spines are not generated; mixed *part tags only in the "
+    "shape 'some equal, not all'",
+    "MEI: @tie attributes (a TODO of the importer; the property names ties as elements), multiRest of more than one measure "
+    "(refused by importer and model alike), nested tuplets, staffDef changes inside a section are outside the generated subset",
     "verovio path of load_mei not exercised (not installed); 2 MEI fixtures need it and are skipped, 1 kern fixture has a malformed header (load only)",
+    "load_score: URLs (downloaded first) and file-like objects are not modelled",
 ]
-RULE = ("abstract scores (1-3 staves x 1-2 voices x 1-4 measures; 13 meters incl. 5/8, 7/8, 4/2; pickups; meter changes; "
+RULE = ("abstract scores (1-3 staves x 1-2 voices x 1-4 measures; 13 meters incl. 5/8, 7/8, 4/2; pickups; meter and key changes; "
         "plain / dotted / double-dotted / tuplet (3:2, 5:4, 6:4, 7:4, dotted-in-tuplet) values down to 32nds, breves and longs; "
-        "chords, rests, grace notes, ties over barlines, silent measures) written by this module's own writers as kern "
-        "(main spines or *^ / *v sub-spines also in mid-measure, one *part / *I group or separate parts, *staff, *clef, *k[], *M, "
-        "*MM, barline styles, a%b reciprocals, comments, decorations) and as MEI (meter/key/clef as attributes or children of "
-        "staffDef / scoreDef, @ppq and/or @dur.ppq or neither, nested staffGrp and sections, beams, tuplets, chords, accid / "
-        "accid.ges / <accid>, mRest, space with and without @dur, incomplete layers, <tie> elements, scoreDef meter changes), "
-        "loaded through load_kern / load_mei / load_score(.krn .kern .KRN .mei .MEI); exporter round trips on exportable parts; "
-        "every kern/mei fixture; extension dispatch; table comparison; corpus = shrunk witnesses of the 22 repaired defects + "
-        "hand-written mid-measure splits.  distinct = distinct document text; non-trivial = at least one note loaded")
-LEVEL_TEXT = ("Lean theorems over all token lists about the denotational semantics (duration values, pitch letters, "
-              "onset additivity, tie joining, grace notes, exact divisions, inferred ppq); the importers are tied to the "
-              "semantics by a differential run on generated kern/MEI documents and every fixture, with an independent "
-              "Python oracle computed from the abstract score.")
+        "chords, rests, grace notes, ties over barlines also between chords, silent measures) written by this module's own writers as kern "
+        "(main spines or *^ / *v sub-spines also in mid-measure, one *part / *I group, separate parts or mixed *part tags, *staff, *clef, "
+        "*k[], *M, *MM, barline styles, a%b reciprocals, comments, decorations; a second writer with up to four simultaneous "
+        "sub-spines per spine, split one by one and joined two by two) and as MEI (meter/key/clef as attributes or children of "
+        "staffDef / scoreDef, @ppq and/or @dur.ppq or neither, nested staffGrp and sections, <ending>s, rptstart / rptend, beams, tuplets, "
+        "chords, accid / accid.ges / <accid>, mRest, multiRest num=1, space with and without @dur, incomplete layers, <tie> elements, "
+        "scoreDef meter and key changes), loaded through load_kern / load_mei / load_score(.krn .kern .KRN .mei .MEI); "
+        "parts built through the public API (notes entering in voice order or shuffled, acciaccaturas, key and meter changes, a staff "
+        "silent without rests, divisions multiplied) exported with save_kern / save_mei: writer model = real output, Exportable agrees "
+        "with its Python restatement, the written document denotes what load_score loads and contains every note; a few parts with "
+        "one wrong symbolic duration (not Exportable: only model = code); load_score on generated paths with the readers recorded, the "
+        "if/elif table read off the source; every kern/mei fixture; table comparison; corpus = shrunk witnesses of the repaired defects + "
+        "hand-written mid-measure splits.  distinct = distinct document text / path list; non-trivial = at least one note loaded")
+LEVEL_TEXT = ("Lean theorems over all inputs: the denotational semantics of kern and MEI (duration values, pitch letters, onset "
+              "additivity, tie joining note by note, grace notes, exact divisions, inferred ppq); export_import for both writers - "
+              "for every Exportable part (explicit decidable predicate) the written document denotes every note with its onset, "
+              "duration, spelling and staff, proved against the same semantics the importers are compared with; load_score picks "
+              "the documented reader for every supported extension in any case and rejects all others. Models are tied to the code "
+              "by exact comparison of the writers' output, of the loaded scores and of the dispatch on generated inputs and every "
+              "fixture, with an independent Python oracle computed from the abstract score.")
 SEARCH_LIMIT = 1500
 
 STEPS = "CDEFGAB"
@@ -231,6 +258,7 @@ def gen_asc(rng, exotic=False, max_measures=4, chord_ties=False):
         if rng.random() < 0.2:
             cur = list(rng.choice(meters))
             asc["meterchg"][str(m)] = cur
+    asc["keychg"] = {str(m): rng.randint(-7, 7) for m in range(1, nm) if rng.random() < 0.15}
     lens = measure_lengths(asc, nm)
     clefs = [["G", 2], ["F", 4], ["C", 3], ["C", 4], ["G", 2], ["F", 4], ["F", 3], ["C", 1]]
     for s in range(nst):
@@ -591,6 +619,9 @@ def write_kern(asc, lay, rng):
         row_all(lambda i, si, vi: "!" if i else "! local")
     if lay["same_part"]:
         row_all(lambda i, si, vi: lay.get("part_tag", "*part1"))
+    elif lay.get("mixed_parts") and len(mains) >= 3:
+        # some spines share a tag, not all: every spine is a part of its own
+        row_all(lambda i, si, vi: "*part%d" % (1 if i < len(mains) - 1 else 2))
     if lay["same_part"] or lay.get("staff_tags", True):
         row_all(lambda i, si, vi: "*staff%d" % (si + 1))
     order = ["clef", "key", "meter"]
@@ -646,6 +677,10 @@ def write_kern(asc, lay, rng):
                 active[i] = True
         if str(m) in asc.get("meterchg", {}) and m > 0:
             row_all(lambda i, si, vi: "*M%d/%d" % tuple(asc["meterchg"][str(m)]))
+        if str(m) in asc.get("keychg", {}) and m > 0:
+            k = asc["keychg"][str(m)]
+            ks = "".join(x + "#" for x in "fcgdaeb"[:k]) if k > 0 else "".join(x + "-" for x in "beadgcf"[:-k])
+            row_all(lambda i, si, vi: "*k[%s]" % ks)
         # data rows of the measure, time ordered; grace tokens get their own row before the note at that time
         all_cols = []
         for i, mn in enumerate(mains):
@@ -695,6 +730,18 @@ def write_kern(asc, lay, rng):
     row_all(lambda i, si, vi: "*-")
     text = "\n".join("\t".join(r) for r in rows) + "\n"
     return text, mains
+
+
+def key_expect(asc):
+    """[(time, fifths)] of the key signatures in force"""
+    lens = measure_lengths(asc)
+    res = [(F(0), asc["key"])]
+    t = F(0)
+    for m in range(n_measures(asc)):
+        if m > 0 and str(m) in asc.get("keychg", {}):
+            res.append((t, asc["keychg"][str(m)]))
+        t += lens[m]
+    return res
 
 
 def kern_expect(asc, lay, mains):
@@ -749,9 +796,200 @@ def kern_expect(asc, lay, mains):
         clefs = sorted(set((F(0), staff_no(mains[i]["si"]), asc["staves"][mains[i]["si"]]["clef"][0],
                             asc["staves"][mains[i]["si"]]["clef"][1]) for i in g))
         parts.append({"notes": notes, "joined": joined, "mstarts": [a for a, _ in spans], "mends": [b for _, b in spans],
+                      "end": t, "ts": ts, "ks": key_expect(asc), "clefs": clefs})
+    return parts
+
+
+
+
+# ============================================================================ kern with several sub-spines per spine
+def prep_kern3(asc):
+    """a voice k > 0 exists in a measure only where all lower voices of its staff do (spines split one by one)"""
+    import copy
+
+    a = copy.deepcopy(asc)
+    for st in a["staves"]:
+        nm = len(st["voices"][0])
+        for m in range(nm):
+            for k in range(1, len(st["voices"])):
+                if st["voices"][k - 1][m] is None or (k - 1 > 0 and st["voices"][k - 1][m] is None):
+                    st["voices"][k][m] = None
+    return untie_last(a)
+
+
+def write_kern3(asc, lay, rng):
+    """main spines = staves (bottom-up); the further voices of a staff are sub-spines that are split off (`*^`, one per
+    interpretation row, always the last sub-spine) after the barline and joined two by two (`*v *v`) when a voice ends"""
+    nst = len(asc["staves"])
+    nm = n_measures(asc)
+    lens = measure_lengths(asc)
+    mains = list(reversed(range(nst)))               # staff index of every main spine
+    rows = []
+    active = [1] * len(mains)                        # number of columns of each main spine
+
+    def cols_now():
+        return [(i, si, k) for i, si in enumerate(mains) for k in range(active[i])]
+
+    def row_all(f):
+        rows.append([f(i, si, k) for (i, si, k) in cols_now()])
+
+    def tokens(si, vi, m, tie_in):
+        mm = asc["staves"][si]["voices"][vi][m]
+        evs = mm if mm is not None else [{"t": "r", "v": v, "d": d, "tup": None} for (v, d) in rest_fill(lens[m])]
+        items, pos = [], F(0)
+        for e in evs:
+            items.append((pos, kern_token(rng, e, tie_in and e["t"] == "n", {}), e["t"] == "g"))
+            if e["t"] != "g":
+                tie_in = bool(e.get("tie")) and e["t"] == "n"
+            pos += ev_value(e)
+        return items, tie_in
+
+    row_all(lambda i, si, k: "**kern")
+    if lay["same_part"]:
+        row_all(lambda i, si, k: "*part1")
+    row_all(lambda i, si, k: "*staff%d" % (si + 1))
+    row_all(lambda i, si, k: "*clef%s%d" % tuple(asc["staves"][si]["clef"]))
+    kk = asc["key"]
+    row_all(lambda i, si, k: "*k[%s]" % ("".join(x + "#" for x in "fcgdaeb"[:kk]) if kk > 0 else "".join(x + "-" for x in "beadgcf"[:-kk])))
+    row_all(lambda i, si, k: "*M%d/%d" % tuple(asc["meter"]))
+    tie_state = {}
+    for m in range(nm):
+        if not (m == 0 and asc.get("pickup")):
+            row_all(lambda i, si, k: "=%d" % (m + 1))
+        if m > 0 and str(m) in asc.get("meterchg", {}):
+            row_all(lambda i, si, k: "*M%d/%d" % tuple(asc["meterchg"][str(m)]))
+        # as many columns as the staff has voices in this measure
+        for i, si in enumerate(mains):
+            want = 1 + sum(1 for k in range(1, len(asc["staves"][si]["voices"])) if asc["staves"][si]["voices"][k][m] is not None)
+            while active[i] > want:
+                cn = cols_now()
+                rows.append(["*v" if (j == i and k >= active[i] - 2) else "*" for (j, s_, k) in cn])
+                active[i] -= 1
+                tie_state.pop((si, active[i]), None)
+            while active[i] < want:
+                cn = cols_now()
+                rows.append(["*^" if (j == i and k == active[i] - 1) else "*" for (j, s_, k) in cn])
+                active[i] += 1
+        events = []
+        for (i, si, k) in cols_now():
+            items, tie_state[(si, k)] = tokens(si, k, m, tie_state.get((si, k), False))
+            for n_, (pos, tok, is_g) in enumerate(items):
+                events.append((pos, (i, k), n_, tok))
+        for t in sorted(set(e[0] for e in events)):
+            here = [e for e in events if e[0] == t]
+            per_col = {}
+            for e in here:
+                per_col.setdefault(e[1], []).append(e)
+            depth = max(len(v) for v in per_col.values())
+            for r in range(depth):
+                cells = []
+                for (i, si, k) in cols_now():
+                    lst = sorted(per_col.get((i, k), []), key=lambda e: e[2])
+                    kk_ = r - (depth - len(lst))
+                    cells.append(lst[kk_][3] if 0 <= kk_ < len(lst) else ".")
+                rows.append(cells)
+    row_all(lambda i, si, k: "==")
+    for i in range(len(mains)):
+        while active[i] > 1:
+            cn = cols_now()
+            rows.append(["*v" if (j == i and k >= active[i] - 2) else "*" for (j, s_, k) in cn])
+            active[i] -= 1
+    row_all(lambda i, si, k: "*-")
+    return "\n".join("\t".join(r) for r in rows) + "\n", mains
+
+
+def kern3_expect(asc, lay, mains):
+    lens = measure_lengths(asc)
+    nm = n_measures(asc)
+    groups = [list(range(len(mains)))] if lay["same_part"] else [[i] for i in reversed(range(len(mains)))]
+    parts = []
+    for g in groups:
+        notes, joined, off = [], [], 0
+        for i in g:
+            si = mains[i]
+            voices = asc["staves"][si]["voices"]
+            width = max(1 + sum(1 for k in range(1, len(voices)) if voices[k][m] is not None) for m in range(nm))
+            for k in range(width):
+                evs = expected_voice(asc, si, k, k == 0)
+                voice = 1 + off + k
+                for (on, du, kind, ps, tie) in evs:
+                    if kind == "r":
+                        notes.append((on, du, "r", "", 0, 0, voice, si + 1))
+                    for p_ in ps:
+                        notes.append((on, du, kind, p_[0], p_[1], p_[2], voice, si + 1))
+                joined += [j + (voice, si + 1) for j in expected_joined(evs)]
+            off += width
+        starts, t = [], F(0)
+        for m in range(nm):
+            if not (m == 0 and asc.get("pickup")):
+                starts.append(t)
+            t += lens[m]
+        starts.append(t)
+        spans = list(zip(starts, starts[1:] + [t]))
+        if starts and starts[0] != 0:
+            spans.insert(0, (F(0), starts[0]))
+        ts = [(F(0), asc["meter"][0], asc["meter"][1])]
+        tt = F(0)
+        for m in range(nm):
+            if m > 0 and str(m) in asc.get("meterchg", {}):
+                ts.append((tt, asc["meterchg"][str(m)][0], asc["meterchg"][str(m)][1]))
+            tt += lens[m]
+        clefs = sorted(set((F(0), mains[i] + 1, asc["staves"][mains[i]]["clef"][0], asc["staves"][mains[i]]["clef"][1]) for i in g))
+        parts.append({"notes": notes, "joined": joined, "mstarts": [a for a, _ in spans], "mends": [b for _, b in spans],
                       "end": t, "ts": ts, "ks": [(F(0), asc["key"])], "clefs": clefs})
     return parts
 
+
+def gen_asc3(rng):
+    """an abstract score with up to four voices on a staff"""
+    asc = gen_asc(rng, exotic=False, max_measures=3, chord_ties=True)
+    asc["keychg"] = {}
+    for st in asc["staves"]:
+        while len(st["voices"]) < rng.choice([2, 3, 3, 4]):
+            src = st["voices"][0]
+            extra = []
+            for m, mm in enumerate(src):
+                if rng.random() < 0.35:
+                    extra.append(None)
+                    continue
+                mt = measure_meter(asc, m)
+                pat = fill_length(rng, measure_lengths(asc)[m], mt, False)
+                evs = []
+                for (vv, d, tup) in pat:
+                    e = {"t": "n", "v": vv, "d": d, "tup": list(tup) if tup else None}
+                    if rng.random() < 0.2:
+                        e["t"] = "r"
+                    else:
+                        e["p"] = [rand_pitch(rng)]
+                    evs.append(e)
+                extra.append(evs)
+            st["voices"].append(extra)
+    return prep_kern3(asc)
+
+
+def eval_kern3(d):
+    asc, lay = d["asc"], d["lay"]
+    rng = random.Random(d.get("seed", 0) ^ 0x5EED)
+    text, mains = write_kern3(asc, lay, rng)
+    ev = Eval(info={"text": text})
+    exp = kern3_expect(asc, lay, mains)
+    try:
+        score = load_text(text, ".krn", loader="kern")
+        infos = extract_parts(score)
+        err = None
+    except Exception as e:
+        infos, err = None, e
+    for what in ("notes", "joined", "meas", "sigs"):
+        ev.requests.append(kern_request(what, text))
+    if err is not None:
+        ev.impl += ["err"] * 4
+        ev.oracle.append("load: load_kern raised %s: %s" % (type(err).__name__, str(err)[:200]))
+    else:
+        tx = impl_texts(infos, "kern")
+        ev.impl += [tx["notes"], tx["joined"], tx["meas"], tx["sigs"]]
+        oracle_compare(exp, infos, ev.oracle)
+    ev.key = "kern3:" + text if infos and any(i["notes"] for i in infos) else None
+    return ev
 
 
 # ============================================================================ MEI writer
@@ -828,17 +1066,32 @@ def write_mei(asc, opt, rng):
     # note ids for ties: (si, vi, flat index of event, pitch index) -> id
     pending = {}     # (si, vi) -> list of (pitch tuple, id) waiting for their continuation
     for m in range(nm):
+        if opt.get("ending") and m == opt["ending"][0]:
+            w('<ending xml:id="%s" n="1">' % ids("end"))
+        if opt.get("ending") and m == opt["ending"][1]:
+            w('</ending><ending xml:id="%s" n="2">' % ids("end"))
         if m > 0 and str(m) in asc.get("meterchg", {}):
             cb, cu = asc["meterchg"][str(m)]
             if opt.get("meterchg") == "child":
                 w('<scoreDef xml:id="%s"><meterSig xml:id="%s" count="%d" unit="%d"/></scoreDef>' % (ids("sd"), ids("ms"), cb, cu))
             else:
                 w('<scoreDef xml:id="%s" meter.count="%d" meter.unit="%d"/>' % (ids("sd"), cb, cu))
+        if m > 0 and str(m) in asc.get("keychg", {}):
+            kk = asc["keychg"][str(m)]
+            ksig = "0" if kk == 0 else ("%ds" % kk if kk > 0 else "%df" % -kk)
+            if opt.get("keychg") == "child":
+                w('<scoreDef xml:id="%s"><keySig xml:id="%s" sig="%s"/></scoreDef>' % (ids("sd"), ids("ks"), ksig))
+            else:
+                w('<scoreDef xml:id="%s" key.sig="%s"/>' % (ids("sd"), ksig))
         if opt.get("sb") and m > 0 and rng.random() < 0.3:
             w('<sb xml:id="%s"/>' % ids("sb"))
         mattr = ' xml:id="%s" n="%d"' % (ids("m"), m + opt.get("first_n", 1))
         if m == nm - 1 and opt.get("right_end"):
             mattr += ' right="end"'
+        elif m in opt.get("rptend", []):
+            mattr += ' right="rptend"'
+        if m in opt.get("rptstart", []):
+            mattr += ' left="rptstart"'
         w("<measure%s>" % mattr)
         ties = []
         full = (lens[m] == meter_len(measure_meter(asc, m)))
@@ -850,7 +1103,9 @@ def write_mei(asc, opt, rng):
                 if mm is None:
                     pending[(si, vi)] = []
                     mode = silent_mode(opt, vi, full)
-                    if mode == "mrest":
+                    if mode == "mrest" and opt.get("multirest") and rng.random() < 0.5:
+                        w('<layer%s><multiRest xml:id="%s" num="1"/></layer>' % (lattr, ids("mr")))
+                    elif mode == "mrest":
                         w('<layer%s><mRest xml:id="%s"/></layer>' % (lattr, ids("mr")))
                     elif mode == "space_nodur":
                         w('<layer%s><space xml:id="%s"/></layer>' % (lattr, ids("sp")))
@@ -895,6 +1150,8 @@ def write_mei(asc, opt, rng):
         for (a_, b_) in ties:
             w('<tie xml:id="%s" startid="#%s" endid="#%s"/>' % (ids("tie"), a_, b_))
         w("</measure>")
+    if opt.get("ending"):
+        w("</ending>")
     if opt.get("nested_section"):
         w("</section>")
     w("</section></score></mdiv></body></music></mei>")
@@ -1027,7 +1284,7 @@ def mei_expect(asc, opt):
                 ts.append((t, asc["meterchg"][str(m)][0], asc["meterchg"][str(m)][1]))
             t += lens[m]
         parts.append({"notes": notes, "joined": joined, "mstarts": starts, "mends": mends, "end": t, "ts": ts,
-                      "ks": [(F(0), asc["key"])], "clefs": [(F(0), si + 1, st["clef"][0], st["clef"][1])]})
+                      "ks": key_expect(asc), "clefs": [(F(0), si + 1, st["clef"][0], st["clef"][1])]})
     return parts
 
 
@@ -1108,7 +1365,32 @@ def rand_mei_opt(rng, asc):
             "nested_section": rng.random() < 0.2, "sb": rng.random() < 0.3, "right_end": rng.random() < 0.5,
             "labels": rng.random() < 0.5, "stems": rng.random() < 0.3, "first_n": rng.choice([1, 1, 0, 12]),
             "sd_children_first": rng.random() < 0.5, "space_nodur": rng.random() < 0.3,
-            "short": [rng.randrange(len(asc["staves"])), rng.randrange(n_measures(asc))] if rng.random() < 0.3 else None}
+            "short": [rng.randrange(len(asc["staves"])), rng.randrange(n_measures(asc))] if rng.random() < 0.3 else None,
+            "keychg": rng.choice(["attr", "child"]), "multirest": rng.random() < 0.3,
+            "ending": _rand_ending(rng, n_measures(asc)) if rng.random() < 0.3 else None,
+            **_rand_repeats(rng, n_measures(asc))}
+
+
+def _rand_repeats(rng, nm):
+    """well-formed repeats: start at the left of measure a, end at the right of measure b >= a, one after the other"""
+    starts, ends, m = [], [], 0
+    while m < nm:
+        if rng.random() < 0.25:
+            b = rng.randrange(m, nm)
+            starts.append(m)
+            ends.append(b)
+            m = b + 1
+        else:
+            m += 1
+    return {"rptstart": starts, "rptend": ends}
+
+
+def _rand_ending(rng, nm):
+    """(a, b): measures a..b-1 are the first ending, b.. the second (to the end of the piece)"""
+    if nm < 2:
+        return None
+    a = rng.randrange(0, nm - 1)
+    return [a, rng.randrange(a + 1, nm)]
 
 
 # ============================================================================ implementation side
@@ -1991,7 +2273,7 @@ def rand_layout(rng):
             "final": rng.choice(["==", "==", "=", "==|!", None]), "deco": rng.random() < 0.5,
             "comments": rng.random() < 0.2, "staff_tags": rng.random() < 0.7,
             "part_tag": rng.choice(["*part1", "*part1", "*Ipiano"]), "tempo": rng.choice([None, None, 96]),
-            "first_bar": rng.choice([1, 1, 1, 5])}
+            "first_bar": rng.choice([1, 1, 1, 5]), "mixed_parts": rng.random() < 0.3}
 
 
 def cases(rng, tier):
@@ -2019,6 +2301,10 @@ def cases(rng, tier):
         if opt["space"]:
             asc = spaces_for_rests(asc, r)
         yield {"k": "mei", "asc": asc, "opt": opt, "seed": seed, "via": r.choice(["load_mei", "load_mei", ".mei", ".MEI"])}
+        if i % 4 == 1:
+            seed = rng.getrandbits(48)
+            r = random.Random(seed)
+            yield {"k": "kern3", "asc": gen_asc3(r), "lay": {"same_part": r.random() < 0.5}, "seed": seed}
         if i % 2 == 0:
             seed = rng.getrandbits(48)
             r = random.Random(seed)
@@ -2055,6 +2341,8 @@ def evaluate(d):
         return eval_mei(d)
     if k in ("xkern", "xmei"):
         return eval_export(d)
+    if k == "kern3":
+        return eval_kern3(d)
     if k == "fixture":
         return eval_fixture(d)
     if k == "dispatch":
@@ -2166,7 +2454,7 @@ def finding_key(d, f):
 def shrink(d):
     import copy
 
-    if d["k"] not in ("kern", "mei", "xkern", "xmei"):
+    if d["k"] not in ("kern", "mei", "xkern", "xmei", "kern3"):
         return
     asc = d["asc"]
     nm = n_measures(asc)
@@ -2284,6 +2572,7 @@ def distribution(descs, results):
             feats["staves=%d" % len(a["staves"])] += 1
             feats["pickup"] += 1 if a.get("pickup") else 0
             feats["meterchg"] += 1 if a.get("meterchg") else 0
+            feats["keychg"] += 1 if a.get("keychg") else 0
             evs = [e for st in a["staves"] for v in st["voices"] for mm in v if mm for e in mm]
             feats["tuplet_docs"] += 1 if any(e.get("tup") for e in evs) else 0
             feats["tie_docs"] += 1 if any(e.get("tie") for e in evs) else 0
@@ -2297,7 +2586,15 @@ def distribution(descs, results):
                 feats["kern_midmeasure_split_docs"] += 1 if (d["lay"]["split"] and any(e["t"] == "s" for e in evs)) else 0
                 feats["kern_one_part_docs"] += 1 if d["lay"]["same_part"] else 0
                 feats["kern_via_load_score"] += 1 if d.get("via", "load_kern") != "load_kern" else 0
+            if d["k"] == "kern3":
+                feats["kern3_max_subspines=%d" % max(len(st["voices"]) for st in a["staves"])] += 1
+            if d["k"] in ("xkern", "xmei"):
+                feats["export_shuffled"] += 1 if (d.get("xopt") or {}).get("shuffle") else 0
+                feats["export_not_exportable"] += 1 if d.get("nonexp") else 0
+                feats["export_silent_staff"] += 1 if "silent_staff" in (d.get("xopt") or {}) else 0
             if d["k"] == "mei":
+                feats["mei_endings"] += 1 if d["opt"].get("ending") else 0
+                feats["mei_repeats"] += 1 if (d["opt"].get("rptstart") or d["opt"].get("rptend")) else 0
                 feats["mei_ppq_inferred"] += 1 if not (d["opt"].get("ppq")) else 0
                 feats["mei_dur_ppq_only"] += 1 if (d["opt"].get("ppq") and d["opt"].get("declare") == "durppq") else 0
                 feats["mei_sig_" + d["opt"]["sig_loc"]] += 1
